@@ -137,7 +137,7 @@ func (u *Unit) dynDesignators(c *ssa.CallCommon) []string {
 	return out
 }
 
-func (u *Unit) bumpCalls(st *State, desigs []string, args []Term, res []Term) {
+func (u *Unit) bumpCalls(st *State, desigs []string, args []Term, res []Term, rtys ...types.Type) {
 	st.Seq++
 	seen := map[string]bool{}
 	for _, d := range desigs {
@@ -151,7 +151,7 @@ func (u *Unit) bumpCalls(st *State, desigs []string, args []Term, res []Term) {
 		}
 		st.CallCnt[d] = Add(cur, IntLit(1))
 	}
-	st.Calls = append(st.Calls, CallEvent{Desigs: desigs, Args: args, Res: res, Seq: st.Seq})
+	st.Calls = append(st.Calls, CallEvent{Desigs: desigs, Args: args, Res: res, ResTys: rtys, Seq: st.Seq})
 }
 
 func termsOf(vs []Val) []Term {
@@ -356,7 +356,7 @@ func (u *Unit) unknownCall(st *State, fr *Frame, site ssa.Instruction, sig *type
 		u.havocAll(st, fr)
 	}
 	res, rv := u.freshResults(st, "call_"+sanitize(calleeShort(desigs)), sig)
-	u.bumpCalls(st, desigs, args, res)
+	u.bumpCalls(st, desigs, args, res, resultTypes(sig)...)
 	k(st, fr, rv)
 }
 
@@ -413,23 +413,12 @@ func (u *Unit) notInLocals(locals []Term) func(addr Term) Term {
 func (u *Unit) havocAll(st *State, fr *Frame) {
 	locals := u.unleakedLocals(fr)
 	pred := u.notInLocals(locals)
-	st.AllHavocs = append(st.AllHavocs, pred)
-	keys := make([]string, 0, len(st.Mem))
-	for k := range st.Mem {
-		keys = append(keys, k)
-	}
-	sort.Strings(keys)
-	for _, k := range keys {
-		if strings.HasPrefix(k, "ghost:") {
-			continue
-		}
-		u.havocKey(st, k, pred)
-	}
+	st.AllHavocs = append(st.AllHavocs, pred) // applied lazily per key (getMem)
 }
 
 func (u *Unit) havocKey(st *State, key string, modified func(addr Term) Term) {
 	so := st.MemSort[key]
-	old := st.Mem[key]
+	old := st.Mem[key] // callers bring the key up to date first (getMem / curMem)
 	nm := u.Fresh("M_"+shorten(sanitize(key), 40), ArrSort(SV, so))
 	st.Derivs[nm.A] = &MemDeriv{Old: old, Elem: so, Kind: "frame", Modified: modified}
 	st.Mem[key] = nm
@@ -775,7 +764,7 @@ func (u *Unit) applyContract(st *State, fr *Frame, site ssa.Instruction, callee 
 	for i, rt := range rts {
 		res = append(res, u.FreshOfType(st, fmt.Sprintf("%s_r%d", sanitize(name), i), rt))
 	}
-	u.bumpCalls(st, desigs, args, res)
+	u.bumpCalls(st, desigs, args, res, rts...)
 	// ensures (assumed)
 	post := &Env{u: u, st: st, old: pre, vars: env.vars, pkg: env.pkg, fn: callee, assuming: true, freshLo: env.freshLo}
 	u.bindResults(post, u.resultNames(callee, ct, sig), rts, res)
@@ -1009,13 +998,26 @@ func (u *Unit) evalModTarget(env *Env, ex Expr) (mt modTarget, all bool, err err
 func (u *Unit) insideStruct(x, addr Term) Term {
 	cur := x
 	var alts []Term
-	for i := 0; i < 4; i++ {
-		alts = append(alts, Eq(cur, addr))
-		if strings.HasPrefix(cur.Op, "fa_") {
-			cur = cur.Args[0]
-			continue
+	eq := func(a Term) {
+		if !u.distinctAddr(a, addr) {
+			alts = append(alts, Eq(a, addr))
 		}
+	}
+	// syntactic part of the chain
+	for strings.HasPrefix(cur.Op, "fa_") || cur.Op == "ia" {
+		eq(cur)
+		cur = cur.Args[0]
+	}
+	eq(cur)
+	if u.isAllocAtom(cur) {
+		return Or(alts...)
+	}
+	// opaque root: it may itself be a field / element address (akind != 0)
+	guard := True
+	for i := 0; i < 3; i++ {
+		guard = And(guard, Neq(App("akind", SInt, cur), IntLit(0)))
 		cur = App("abase", SV, cur)
+		alts = append(alts, And(guard, Eq(cur, addr)))
 	}
 	return Or(alts...)
 }
@@ -1031,17 +1033,10 @@ func (u *Unit) applyModifies(st *State, fr *Frame, site ssa.Instruction, ct *Con
 	for _, t := range targets {
 		keys := t.keys
 		if keys == nil {
-			for k := range st.Mem {
-				if strings.HasPrefix(k, "ghost:") {
-					continue
-				}
-				keys = append(keys, k)
-			}
-			sort.Strings(keys)
 			locals := u.notInLocals(u.unleakedLocals(fr))
 			inner := t.pred
-			t.pred = func(addr Term) Term { return And(locals(addr), inner(addr)) }
-			st.AllHavocs = append(st.AllHavocs, t.pred)
+			st.AllHavocs = append(st.AllHavocs, func(addr Term) Term { return And(locals(addr), inner(addr)) })
+			continue
 		}
 		for _, k := range keys {
 			if _, ok := st.MemSort[k]; !ok {
@@ -1054,9 +1049,10 @@ func (u *Unit) applyModifies(st *State, fr *Frame, site ssa.Instruction, ct *Con
 			if t.addr != nil {
 				so := st.MemSort[k]
 				nv := u.Fresh("hv", so)
-				st.Mem[k] = Store(st.Mem[k], *t.addr, nv)
+				st.Mem[k] = Store(u.curMem(st, k), *t.addr, nv)
 				continue
 			}
+			u.curMem(st, k)
 			u.havocKey(st, k, t.pred)
 		}
 	}
@@ -1365,7 +1361,7 @@ func (u *Unit) doAppend(st *State, fr *Frame, site ssa.Instruction, c *ssa.CallC
 			u.getMem(st, key, u.sortOfKey(sl.Elem(), key))
 			elemSort = st.MemSort[key]
 		}
-		old := st.Mem[key]
+		old := u.curMem(st, key)
 		nm := u.Fresh("Mapp_"+shorten(sanitize(key), 30), ArrSort(SV, elemSort))
 		d := &MemDeriv{Old: old, Elem: elemSort, Kind: "frame"}
 		d.Modified = func(addr Term) Term {
